@@ -126,6 +126,9 @@ func (iv *Value) ValueFrom(value any) {
 			iv.ItemValue = vv
 		}
 	case ItemTypeArray:
+		if value == nil {
+			return
+		}
 		rt := reflect.TypeOf(value)
 		if rt.Kind() == reflect.Slice || rt.Kind() == reflect.Array {
 			data, err := json.Marshal(value)
@@ -143,6 +146,9 @@ func (iv *Value) ValueFrom(value any) {
 			iv.ItemValue = vv
 		}
 	case ItemTypeObject:
+		if value == nil {
+			return
+		}
 		rt := reflect.TypeOf(value)
 		if rt.Kind() == reflect.Pointer {
 			rt = rt.Elem()
